@@ -67,8 +67,13 @@ def record(case):
     finally:
         cg.trace_off()
     cg.independentFunctionList = fins
-    cg.dependentFunctionList = [regs[case['out']]]
+    cg.dependentFunctionList = [regs[o] for o in _outs(case)]
     return cg, fins, regs
+
+
+def _outs(case):
+    """output registers: one, or two dependents (the second one drawn among the other registers)"""
+    return [case['out']] + ([case['out2']] if case.get('out2') is not None else [])
 
 
 def forward_reference(case, D, P):
@@ -78,7 +83,7 @@ def forward_reference(case, D, P):
     Z0 = [UTPM(d) for d in _inputs(case, D, P, pad=D, extra=[np.zeros_like(v) for v in V])]
     rz = PG.run(case['prog'], Z)
     r0 = PG.run(case['prog'], Z0)
-    yz, y0 = rz[case['out']], r0[case['out']]
+    outs = _outs(case)
     # largest intermediate coefficient: the rounding error of this reference is about eps * mag, whatever the size of the result
     mag = 1.0
     for r in rz + r0:
@@ -87,7 +92,7 @@ def forward_reference(case, D, P):
             if np.isfinite(m):
                 mag = max(mag, m)
     case['_mag'] = mag
-    return yz.data[D:] - y0.data[D:], y0.data[:D]
+    return [rz[o].data[D:] - r0[o].data[D:] for o in outs], [r0[o].data[:D] for o in outs]
 
 
 def pairing(xbars, V, ybar, W, D, P, mag=1.0):
@@ -103,9 +108,10 @@ def pairing(xbars, V, ybar, W, D, P, mag=1.0):
                     t = xb[k, p] * v[d - k, p]
                     lhs += np.sum(t)
                     sc += np.sum(np.abs(t))
-                t = ybar[k, p] * W[d - k, p]
-                rhs += np.sum(t)
-                sc += np.sum(np.abs(t))
+                for yb, w in zip(ybar, W):
+                    t = yb[k, p] * w[d - k, p]
+                    rhs += np.sum(t)
+                    sc += np.sum(np.abs(t))
             if not (np.isfinite(lhs) and np.isfinite(rhs)):
                 return float('inf'), (p, d, float(lhs), float(rhs))
             e = abs(lhs - rhs) / max(sc, 1.0, 1e-5 * mag)
@@ -123,21 +129,22 @@ def prop_pairing(case, stats):
         raise Rejected(str(e))
     except Exception as e:
         raise Inconclusive('forward reference failed: %s: %s' % (type(e).__name__, str(e)[:200]))
-    if np.iscomplexobj(W) or not np.all(np.isfinite(W)):
+    if any(np.iscomplexobj(w) or not np.all(np.isfinite(w)) for w in W):
         raise Inconclusive('forward reference not real/finite')
     cg, fins, regs = guard(record, case)
     X = [UTPM(d) for d in _inputs(case, D, P)]
     guard(cg.pushforward, X)
-    Y = regs[case['out']].x
-    if not isinstance(Y, UTPM):
-        raise Violation('graph output after pushforward is %s, not a UTPM' % type(Y).__name__)
-    if Y.data.shape != Y0.shape:
-        raise Violation('replayed output has data shape %s, direct execution %s' % (Y.data.shape, Y0.shape))
-    ybar = case['ybar']
-    if ybar.shape != Y.data.shape:
-        raise Inconclusive('seed shape does not match output')
+    ybar = [case['ybar']] + ([case['ybar2']] if case.get('out2') is not None else [])
+    for o, y0, yb in zip(_outs(case), Y0, ybar):
+        Y = regs[o].x
+        if not isinstance(Y, UTPM):
+            raise Violation('graph output after pushforward is %s, not a UTPM' % type(Y).__name__)
+        if Y.data.shape != y0.shape:
+            raise Violation('replayed output has data shape %s, direct execution %s' % (Y.data.shape, y0.shape))
+        if yb.shape != Y.data.shape:
+            raise Inconclusive('seed shape does not match output')
     try:
-        guard(cg.pullback, [UTPM(ybar.copy())])
+        guard(cg.pullback, [UTPM(yb.copy()) for yb in ybar])
     except Violation as v:
         if "has no attribute 'pb_" in str(v):
             # the library provides no pullback for a recorded operation and says so by raising
@@ -221,6 +228,21 @@ def pairing_cases(draw, tier, first=None, families=None, max_len=8, min_len=1, a
     outshape = np.shape(PG.run(pr['prog'], [np.array(p[0], dtype=float) for p in pr['pts']])[pr['out']])
     case['ybar'] = draw(gen.float_array((D, P) + tuple(outshape), dense, sparse=False))
     case['rec'] = draw(st.sampled_from(['nd', 'nd', 'utpm11', 'utpm22']))
+    case['out2'] = None
+    if draw(st.integers(0, 3)) == 0:
+        # a second dependent (documented usage: cg.dependentFunctionList = [y1, y2], cg.pullback([y1bar, y2bar]))
+        regs0 = PG.run(pr['prog'], [np.array(p[0], dtype=float) for p in pr['pts']])
+        nin = len(pr['pts'])
+        # (dependents that alias each other - the same buffer node twice, or a view of the other dependent - are not generated:
+        #  seeding assigns f.xbar[...] = seed per dependent, which is only meaningful for distinct storage)
+        ru = PG.run(pr['prog'], [UTPM(np.array(p[0], dtype=float).reshape((1, 1) + p.shape[1:])) for p in pr['pts']])
+        main = ru[pr['out']]
+        c = [q for q in range(nin, len(regs0)) if q != pr['out'] and not np.iscomplexobj(regs0[q]) and pr['prog'][q - nin][0] not in ('set', 'setc')
+             and isinstance(ru[q], UTPM) and isinstance(main, UTPM) and not np.shares_memory(ru[q].data, main.data)]
+        if c:
+            o2 = draw(st.sampled_from(c))
+            case['out2'] = o2
+            case['ybar2'] = draw(gen.float_array((D, P) + tuple(np.shape(regs0[o2])), dense, sparse=False))
     return case
 
 
@@ -234,7 +256,7 @@ def _nontrivial(case):
 
 
 def _classes(case):
-    c = ['D=%d' % case['D'], 'P=%d' % case['P'], 'rec=' + case['rec']]
+    c = ['D=%d' % case['D'], 'P=%d' % case['P'], 'rec=' + case['rec']] + (['two-dependents'] if case.get('out2') is not None else [])
     c += [f for f in PG.features(case)]
     return c
 
